@@ -210,24 +210,28 @@ def i_CBZ(i, fmap):
     fmap[pc] = tst(fmap(i.t == 0), fmap[pc] + i.offset, fmap[pc] + i.length)
 
 
+def __ccm(i, fmap, _r, carry, overflow):
+    # NZCV <- flags of the comparison if the condition holds (in the current
+    # state), else the immediate nzcv (N is bit 3 ... V is bit 0)
+    cond = fmap(i.operands[3])
+    fmap[N] = tst(cond, _r[_r.size - 1 : _r.size], i.flags[3:4])
+    fmap[Z] = tst(cond, _r == 0, i.flags[2:3])
+    fmap[C] = tst(cond, carry, i.flags[1:2])
+    fmap[V] = tst(cond, overflow, i.flags[0:1])
+
+
 def i_CCMN(i, fmap):
     fmap[pc] = fmap[pc] + i.length
     op1, op2, nzcv, cond = i.operands
     _r, carry, overflow = AddWithCarry(fmap(op1), fmap(op2))
-    fmap[N] = tst(fmap(cond), _r < 0, i.flags[0])
-    fmap[Z] = tst(fmap(cond), _r == 0, i.flags[1])
-    fmap[C] = tst(fmap(cond), carry, i.flags[2])
-    fmap[V] = tst(fmap(cond), overflow, i.flags[3])
+    __ccm(i, fmap, _r, carry, overflow)
 
 
 def i_CCMP(i, fmap):
     fmap[pc] = fmap[pc] + i.length
     op1, op2, nzcv, cond = i.operands
     _r, carry, overflow = SubWithBorrow(fmap(op1), fmap(op2))
-    fmap[N] = tst(fmap(cond), _r < 0, i.flags[0])
-    fmap[Z] = tst(fmap(cond), _r == 0, i.flags[1])
-    fmap[C] = tst(fmap(cond), carry, i.flags[2])
-    fmap[V] = tst(fmap(cond), overflow, i.flags[3])
+    __ccm(i, fmap, _r, carry, overflow)
 
 
 def i_CLREX(i, fmap):
